@@ -1,0 +1,95 @@
+//go:build verif
+
+package hotline
+
+// Export shim for the verification harness in /verif (build tag "verif").
+// Add-only: nothing here is compiled into a normal build.
+
+import (
+	"bufio"
+	"context"
+	"io"
+)
+
+// VerifHandleNewConnection runs the control-connection entry point on an arbitrary connection.
+func (s *Server) VerifHandleNewConnection(ctx context.Context, rwc io.ReadWriteCloser, remoteAddr string) error {
+	return s.handleNewConnection(ctx, rwc, remoteAddr)
+}
+
+// VerifHandleFileTransfer runs the transfer-connection entry point on an arbitrary connection.
+func (s *Server) VerifHandleFileTransfer(rwc io.ReadWriter, remoteAddr string) error {
+	ctx := context.WithValue(context.Background(), contextKeyReq, requestCtx{remoteAddr: remoteAddr})
+	return s.handleFileTransfer(ctx, rwc)
+}
+
+// VerifProcessOutbox runs the outbox dispatcher (never returns).
+func (s *Server) VerifProcessOutbox() { s.processOutbox() }
+
+// VerifSendTransaction writes one transaction to its addressee.
+func (s *Server) VerifSendTransaction(t Transaction) error { return s.sendTransaction(t) }
+
+// VerifOutbox exposes the outbox channel so handler-level runs can drain broadcasts.
+func (s *Server) VerifOutbox() chan Transaction { return s.outbox }
+
+// VerifHandlers exposes the registered handler table.
+func (s *Server) VerifHandlers() map[TranType]HandlerFunc { return s.handlers }
+
+// VerifHandleTransaction dispatches one transaction the way the connection loop does.
+func (cc *ClientConn) VerifHandleTransaction(t Transaction) { cc.handleTransaction(t) }
+
+// VerifPerformHandshake runs the server side of the handshake.
+func VerifPerformHandshake(rw io.ReadWriter) error { return performHandshake(rw) }
+
+// VerifTransactionScanner is the split function used on client streams.
+var VerifTransactionScanner bufio.SplitFunc = transactionScanner
+
+// VerifFileItemScanner, VerifNewsPathScanner, VerifServerScanner: the other split functions.
+var VerifFileItemScanner bufio.SplitFunc = fileItemScanner
+var VerifNewsPathScanner bufio.SplitFunc = newsPathScanner
+var VerifServerScanner bufio.SplitFunc = serverScanner
+
+// VerifReceiveFile is the upload stream parser.
+func VerifReceiveFile(r io.Reader, targetFile, resForkFile, infoFork, counterWriter io.Writer) error {
+	return receiveFile(r, targetFile, resForkFile, infoFork, counterWriter)
+}
+
+// VerifTransferWrite decodes a 16-byte transfer preamble; returns the reference number.
+func VerifTransferWrite(b []byte) (ref [4]byte, size [4]byte, err error) {
+	var t transfer
+	_, err = t.Write(b)
+	return t.ReferenceNumber, t.DataSize, err
+}
+
+// VerifHandshakeWrite decodes a handshake and reports validity.
+func VerifHandshakeWrite(b []byte) (valid bool, err error) {
+	var h handshake
+	_, err = h.Write(b)
+	return h.Valid(), err
+}
+
+// VerifFolderUploadPath formats a folder-upload item path.
+func VerifFolderUploadPath(pathItemCount [2]byte, fileNamePath []byte) string {
+	fu := folderUpload{PathItemCount: pathItemCount, FileNamePath: fileNamePath}
+	return fu.FormattedPath()
+}
+
+// VerifFlattenedFileObject is an alias so the harness can build and drain headers.
+type VerifFlattenedFileObject = flattenedFileObject
+
+// VerifFileWrapper is an alias for the per-file wrapper.
+type VerifFileWrapper = fileWrapper
+
+// VerifFfoBytes drains a file wrapper's flattened-file header with io.ReadAll on a copy.
+func VerifFfoBytes(fw *fileWrapper) ([]byte, error) {
+	c := *fw.Ffo
+	c.readOffset = 0
+	c.FlatFileInformationFork.readOffset = 0
+	return io.ReadAll(&c)
+}
+
+// VerifNextClientID reads / sets the client-ID counter of the in-memory client manager.
+func (cm *MemClientMgr) VerifNextClientID() uint32     { return cm.nextClientID.Load() }
+func (cm *MemClientMgr) VerifSetNextClientID(v uint32) { cm.nextClientID.Store(v) }
+
+// VerifRateLimitersLen reports the size of the per-address limiter table.
+func (s *Server) VerifRateLimitersLen() int { return len(s.rateLimiters) }
